@@ -447,8 +447,9 @@ Section Drivers.
   Proof. intros H. unfold cb_mc, decide. rewrite H. reflexivity. Qed.
 End Drivers.
 
-(** ** the built-in callback: it reads the non-zero counter only through the test "non_zero_calls == 0" of
-    weighted_with_variance; if no iteration result has a zero counter (in either run) it decides the same *)
+(** ** the built-in callback (after the repair of weighted_with_variance, /repo commit 1b97d17): a result is
+    skipped when finite_calls == 0; the non-zero counters are only added up into the counter of the combined
+    result, which [value] / [error] / the decision never read *)
 Section Builtin.
   Context {K : Num}.
 
@@ -459,74 +460,55 @@ Section Builtin.
   Proof. unfold mk_result, create_result, mcres_eq_nz. cbn. auto. Qed.
 
   Definition wacc_rel (a b : wacc (K:=K)) : Prop :=
-    w_calls a = w_calls b /\ w_fin a = w_fin b /\ w_est a = w_est b /\ w_var a = w_var b /\
-    (w_nz a = 0%N <-> w_nz b = 0%N).
+    w_calls a = w_calls b /\ w_fin a = w_fin b /\ w_est a = w_est b /\ w_var a = w_var b.
 
   Lemma wwv_fold_rel (rs1 rs2 : list (mcres K)) : Forall2 mcres_eq_nz rs1 rs2 ->
-    Forall (fun r => r_nz r <> 0%N) rs1 -> Forall (fun r => r_nz r <> 0%N) rs2 ->
     forall a b, wacc_rel a b -> wacc_rel (fold_left wwv_step rs1 a) (fold_left wwv_step rs2 b).
   Proof.
-    induction 1 as [|r s rs1 rs2 Hrs _ IH]; intros F1 F2 a b Hab; [exact Hab|].
-    inversion F1 as [|? ? N1 F1']; inversion F2 as [|? ? N2 F2']; subst. cbn [fold_left].
-    apply IH; [assumption|assumption|].
-    destruct Hab as (A1 & A2 & A3 & A4 & A5).
+    induction 1 as [|r s rs1 rs2 Hrs _ IH]; intros a b Hab; [exact Hab|]. cbn [fold_left].
+    apply IH. destruct Hab as (A1 & A2 & A3 & A4).
     destruct (estimators_eq_nz _ _ Hrs) as (E1 & E2 & _). destruct Hrs as (R1 & R2 & _).
-    unfold wwv_step. apply N.eqb_neq in N1, N2. rewrite N1, N2. apply N.eqb_neq in N1, N2.
-    unfold wacc_rel. cbn. rewrite A1, A2, A3, A4, R1, R2, E1, E2. repeat split; lia.
+    unfold wwv_step. rewrite R2. destruct (N.eqb (r_fin s) 0); unfold wacc_rel; cbn;
+      rewrite A1, A2, A3, A4, R1, ?E1, ?E2; auto.
   Qed.
 
-  Lemma wwv_rel (rs1 rs2 : list (mcres K)) : Forall2 mcres_eq_nz rs1 rs2 ->
-    Forall (fun r => r_nz r <> 0%N) rs1 -> Forall (fun r => r_nz r <> 0%N) rs2 ->
+  (* the combination of related result lists is related (equal except the summed non-zero counter) *)
+  Lemma c06_wwv_rel (rs1 rs2 : list (mcres K)) : Forall2 mcres_eq_nz rs1 rs2 ->
     mcres_eq_nz (weighted_with_variance rs1) (weighted_with_variance rs2).
   Proof.
-    intros H F1 F2. unfold weighted_with_variance.
-    pose proof (wwv_fold_rel _ _ H F1 F2 (mk_wacc 0 0 0 (zero K) (zero K)) (mk_wacc 0 0 0 (zero K) (zero K))) as Hf.
-    destruct Hf as (A1 & A2 & A3 & A4 & A5); [unfold wacc_rel; cbn; tauto|].
+    intros H. unfold weighted_with_variance.
+    pose proof (wwv_fold_rel _ _ H (mk_wacc 0 0 0 (zero K) (zero K)) (mk_wacc 0 0 0 (zero K) (zero K))) as Hf.
+    destruct Hf as (A1 & A2 & A3 & A4); [unfold wacc_rel; cbn; tauto|].
     set (a := fold_left wwv_step rs1 _) in *. set (b := fold_left wwv_step rs2 _) in *.
-    assert (Eb : N.eqb (w_nz a) 0 = N.eqb (w_nz b) 0).
-    { destruct (N.eqb (w_nz a) 0) eqn:Ea.
-      - apply N.eqb_eq in Ea. symmetry. apply N.eqb_eq. tauto.
-      - apply N.eqb_neq in Ea. symmetry. apply N.eqb_neq. tauto. }
-    rewrite Eb, A1, A2, A3, A4. destruct (N.eqb (w_nz b) 0); apply mk_result_eq_nz.
+    rewrite A1, A2, A3, A4. destruct (N.eqb (w_fin b) 0); apply mk_result_eq_nz.
   Qed.
 
   Lemma c06_decide_rel target (rs1 rs2 : list (mcres K)) : Forall2 mcres_eq_nz rs1 rs2 ->
-    Forall (fun r => r_nz r <> 0%N) rs1 -> Forall (fun r => r_nz r <> 0%N) rs2 ->
     decide target rs1 = decide target rs2.
   Proof.
-    intros H F1 F2. unfold decide, rel_err_all.
-    destruct (estimators_eq_nz _ _ (wwv_rel _ _ H F1 F2)) as (E1 & _ & E3). rewrite E1, E3. reflexivity.
+    intros H. unfold decide, rel_err_all.
+    destruct (estimators_eq_nz _ _ (c06_wwv_rel _ _ H)) as (E1 & _ & E3). rewrite E1, E3. reflexivity.
   Qed.
 
   Lemma Forall2_map' {A B A' B'} (R : A -> B -> Prop) (S : A' -> B' -> Prop) (g : A -> A') (h : B -> B') l1 l2 :
     (forall a b, R a b -> S (g a) (h b)) -> Forall2 R l1 l2 -> Forall2 S (map g l1) (map h l2).
   Proof. intros H. induction 1; cbn; constructor; auto. Qed.
 
-  Definition all_counted (rs : list (mcres K)) : Prop := Forall (fun r => r_nz r <> 0%N) rs.
-
-  Lemma c06_cb_plain_rel target (a b : pchk K) : pchk_rel a b ->
-    all_counted (map p_main (b_results a)) -> all_counted (map p_main (b_results b)) ->
-    cb_plain target a = cb_plain target b.
+  Lemma c06_cb_plain_rel target (a b : pchk K) : pchk_rel a b -> cb_plain target a = cb_plain target b.
   Proof.
-    intros [H _] F1 F2. unfold cb_plain. apply c06_decide_rel; [|exact F1|exact F2].
+    intros [H _]. unfold cb_plain. apply c06_decide_rel.
     eapply Forall2_map'; [|exact H]. intros x y [Hm _]. exact Hm.
   Qed.
 
-  Lemma c06_cb_vegas_rel target (a b : vchk K) : vchk_rel a b ->
-    all_counted (map (fun r => p_main (v_plain r)) (b_results (vc_base a))) ->
-    all_counted (map (fun r => p_main (v_plain r)) (b_results (vc_base b))) ->
-    cb_vegas target a = cb_vegas target b.
+  Lemma c06_cb_vegas_rel target (a b : vchk K) : vchk_rel a b -> cb_vegas target a = cb_vegas target b.
   Proof.
-    intros [[H _] _] F1 F2. unfold cb_vegas. apply c06_decide_rel; [|exact F1|exact F2].
+    intros [[H _] _]. unfold cb_vegas. apply c06_decide_rel.
     eapply Forall2_map'; [|exact H]. intros x y [[Hm _] _]. exact Hm.
   Qed.
 
-  Lemma c06_cb_mc_rel target (a b : mchk K) : mchk_rel a b ->
-    all_counted (map (fun r => p_main (m_plain r)) (b_results (mc_base a))) ->
-    all_counted (map (fun r => p_main (m_plain r)) (b_results (mc_base b))) ->
-    cb_mc target a = cb_mc target b.
+  Lemma c06_cb_mc_rel target (a b : mchk K) : mchk_rel a b -> cb_mc target a = cb_mc target b.
   Proof.
-    intros [[H _] _] F1 F2. unfold cb_mc. apply c06_decide_rel; [|exact F1|exact F2].
+    intros [[H _] _]. unfold cb_mc. apply c06_decide_rel.
     eapply Forall2_map'; [|exact H]. intros x y [[Hm _] _]. exact Hm.
   Qed.
 
@@ -645,7 +627,7 @@ Lemma c06_example_poisoned :
   @neqb B64 ex06_nan (zero B64) = true /\ isfinite B64 (mul B64 ex06_nan (one B64)) = false /\ @zero_eq_zero B64.
 Proof. repeat split; vm_compute; reflexivity. Qed.
 
-(* an integrand for the callback counterexample: values 1, 3 | NaN, NaN | 2, 2.5 | 1, 1 in four iterations
+(* an integrand with an all-poisoned iteration: values 1, 3 | NaN, NaN | 2, 2.5 | 1, 1 in four iterations
    of two calls *)
 Definition ex06_f : integrand B64 := fun o =>
   let v := match o_idx o with
@@ -661,25 +643,11 @@ Definition ex06_target : B64 := div B64 (one B64) (ofN B64 4).
 Definition loglen {C E} (r : res (C * N * list (iterlog C E))) : nat :=
   match r with Ok (_, _, l) => length l | UB c => 1000 + c end.
 
+(* before the repair of weighted_with_variance the first run performed 4 iterations and its twin 3 *)
 Lemma ex06_callback_lengths :
-  loglen (plain_run ex06_strm [] ex06_f 1 (cb_plain ex06_target) [2;2;2;2]%N (base_init 0) 0) = 4%nat /\
+  loglen (plain_run ex06_strm [] ex06_f 1 (cb_plain ex06_target) [2;2;2;2]%N (base_init 0) 0) = 3%nat /\
   loglen (plain_run ex06_strm [] (zeroed ex06_f) 1 (cb_plain ex06_target) [2;2;2;2]%N (base_init 0) 0) = 3%nat.
 Proof. split; vm_compute; reflexivity. Qed.
-
-(* the built-in callback with a positive target does NOT respect the relation: with it the poisoned run
-   performs four iterations, the zeroed twin three *)
-Lemma c06_builtin_callback_counterexample :
-  ~ (forall a b : pchk B64, pchk_rel a b -> cb_plain ex06_target a = cb_plain ex06_target b).
-Proof.
-  intros Hcb.
-  pose proof (c06_plain_run_twin ex06_strm [] ex06_f zero_eq_zero_B64 1 (cb_plain ex06_target) [2;2;2;2]%N
-                (base_init 0) (base_init 0) 0%N Hcb (pchk_rel_refl _)) as H.
-  destruct ex06_callback_lengths as [L1 L2].
-  destruct (plain_run ex06_strm [] ex06_f 1 (cb_plain ex06_target) [2;2;2;2]%N (base_init 0) 0) as [[[c1 i1] l1]|];
-    destruct (plain_run ex06_strm [] (zeroed ex06_f) 1 (cb_plain ex06_target) [2;2;2;2]%N (base_init 0) 0) as [[[c2 i2] l2]|];
-    cbn [loglen] in L1, L2; try discriminate; try contradiction.
-  destruct H as (_ & _ & H). apply Forall2_length' in H. lia.
-Qed.
 
 (* adaptive runs (three iterations of six calls; values NaN, 0, x+1, +inf; two fills per call, one poisoned)
    with a callback that ignores the counters *)
@@ -785,32 +753,46 @@ Lemma c06_rel_refl {K : Num} :
 Proof. split; [|split]; intros; [apply pchk_rel_refl|apply vchk_rel_refl|apply mchk_rel_refl]. Qed.
 
 Lemma c06_callbacks_respect {K : Num} (target : K) :
-  (* no target precision (the default, target = 0): always "continue" *)
-  (ltb K (zero K) target = false ->
-     (forall a b : pchk K, cb_plain target a = cb_plain target b) /\
-     (forall a b : vchk K, cb_vegas target a = cb_vegas target b) /\
-     (forall a b : mchk K, cb_mc target a = cb_mc target b)) /\
-  (* any target: same decision on related checkpoints none of whose results has a zero non-zero counter *)
-  (forall a b : pchk K, pchk_rel a b ->
-     all_counted (map p_main (b_results a)) -> all_counted (map p_main (b_results b)) ->
-     cb_plain target a = cb_plain target b) /\
-  (forall a b : vchk K, vchk_rel a b ->
-     all_counted (map (fun r => p_main (v_plain r)) (b_results (vc_base a))) ->
-     all_counted (map (fun r => p_main (v_plain r)) (b_results (vc_base b))) ->
-     cb_vegas target a = cb_vegas target b) /\
-  (forall a b : mchk K, mchk_rel a b ->
-     all_counted (map (fun r => p_main (m_plain r)) (b_results (mc_base a))) ->
-     all_counted (map (fun r => p_main (m_plain r)) (b_results (mc_base b))) ->
-     cb_mc target a = cb_mc target b).
+  (forall a b : pchk K, pchk_rel a b -> cb_plain target a = cb_plain target b) /\
+  (forall a b : vchk K, vchk_rel a b -> cb_vegas target a = cb_vegas target b) /\
+  (forall a b : mchk K, mchk_rel a b -> cb_mc target a = cb_mc target b).
+Proof. split; [|split]; [apply c06_cb_plain_rel|apply c06_cb_vegas_rel|apply c06_cb_mc_rel]. Qed.
+
+(* [same_run RC x y]: related final checkpoints, same call counter, the same number of performed iterations,
+   pairwise related log entries *)
+Definition same_run {C E} (RC : C -> C -> Prop) (RE : list E -> list E -> Prop)
+    (x y : C * N * list (iterlog C E)) : Prop :=
+  run_rel C E RC RE x y /\ length (snd x) = length (snd y).
+
+Lemma run_rel_same_run {C E} (RC : C -> C -> Prop) (RE : list E -> list E -> Prop) x y :
+  run_rel C E RC RE x y -> same_run RC RE x y.
 Proof.
-  split; [|split; [|split]].
-  - intros H. split; [|split]; intros.
-    + apply cb_plain_no_target; assumption.
-    + apply cb_vegas_no_target; assumption.
-    + apply cb_mc_no_target; assumption.
-  - apply c06_cb_plain_rel.
-  - apply c06_cb_vegas_rel.
-  - apply c06_cb_mc_rel.
+  intros H. split; [exact H|]. destruct x as [[c1 i1] l1], y as [[c2 i2] l2]. destruct H as (_ & _ & H).
+  cbn [snd]. eapply Forall2_length'; exact H.
+Qed.
+
+Lemma c06_run_twin_builtin {K : Num} (L : Libm K) (strm : N -> K) ps (f : integrand K) (mp : mcmap K) :
+  @zero_eq_zero K -> forall target : K,
+  (forall d cs c idx,
+     res_rel (same_run pchk_rel ev_rel)
+             (plain_run strm ps f d (cb_plain target) cs c idx)
+             (plain_run strm ps (zeroed f) d (cb_plain target) cs c idx)) /\
+  (forall d cs c idx,
+     res_rel (same_run vchk_rel ev_rel)
+             (vegas_run L strm ps f d (cb_vegas target) cs c idx)
+             (vegas_run L strm ps (zeroed f) d (cb_vegas target) cs c idx)) /\
+  (forall d channels cs c idx,
+     res_rel (same_run mchk_rel ev_rel)
+             (mc_run L strm ps f mp d channels (cb_mc target) cs c idx)
+             (mc_run L strm ps (zeroed f) mp d channels (cb_mc target) cs c idx)).
+Proof.
+  intros Hz target. split; [|split]; intros.
+  - eapply res_rel_impl; [apply run_rel_same_run|].
+    apply c06_plain_run_twin; [exact Hz|apply c06_cb_plain_rel|apply pchk_rel_refl].
+  - eapply res_rel_impl; [apply run_rel_same_run|].
+    apply c06_vegas_run_twin; [exact Hz|apply c06_cb_vegas_rel|apply vchk_rel_refl].
+  - eapply res_rel_impl; [apply run_rel_same_run|].
+    apply c06_mc_run_twin; [exact Hz|apply c06_cb_mc_rel|apply mchk_rel_refl].
 Qed.
 
 Lemma c06_reported_finite_partial prec emax (Hprec : FLX.Prec_gt_0 prec) (Hmax : Prec_lt_emax prec emax) :
